@@ -49,6 +49,7 @@ var types17 = []reflect.Type{
 	reflect.TypeOf(map[string]any(nil)), reflect.TypeOf((*any)(nil)).Elem(), reflect.TypeOf((*int)(nil)),
 	reflect.TypeOf(s17{}), reflect.TypeOf(time.Duration(0)), reflect.TypeOf([2]int{}), reflect.TypeOf([][]byte(nil)),
 	reflect.TypeOf(time.Time{}), reflect.TypeOf([]float32(nil)), reflect.TypeOf(map[string][]byte(nil)),
+	reflect.TypeOf(map[string]s17(nil)), reflect.TypeOf(map[string][]int(nil)), reflect.TypeOf(map[string]*s17(nil)),
 }
 
 func values17() []types.Value {
@@ -64,6 +65,14 @@ func values17() []types.Value {
 		types.NewMap(types.NewString("a"), types.NewString("zz")), types.NewMap(),
 		types.NewMap(types.NewString("c"), types.NewString("12")), types.NewMap(types.NewString("k"), types.NewBinary([]byte{9})),
 		types.NewMap(types.NewString("w"), types.NewInt(3), types.NewString("h"), types.NewInt(4)),
+		// maps of composite values: one that fails part-way through a value, and valid ones that leave parts of a
+		// value unset (an absent field, a shorter list)
+		types.NewMap(types.NewString("m"), types.NewMap(types.NewString("a"), types.NewInt(512), types.NewString("c"), types.NewString("!!"))),
+		types.NewMap(types.NewString("m"), types.NewMap(types.NewString("b"), types.NewString("x"))),
+		types.NewMap(types.NewString("m"), types.NewMap(types.NewString("a"), types.NewInt(7), types.NewString("b"), types.NewString("y"), types.NewString("c"), types.NewString("AQI="))),
+		types.NewMap(types.NewString("p"), types.NewSlice(types.NewInt(25), types.NewString("smtp"), types.NewInt(587))),
+		types.NewMap(types.NewString("p"), types.NewSlice(types.NewInt(80))),
+		types.NewMap(types.NewString("p"), types.NewSlice(types.NewInt(1), types.NewInt(2), types.NewInt(3))),
 	}
 }
 
@@ -226,15 +235,27 @@ func real17(r *rand.Rand, hist map[string]int) (any, string, bool) {
 			}
 		}
 	}
-	if r.Intn(4) == 0 && fail == "" {
+	if r.Intn(2) == 0 && fail == "" {
+		// several goroutines meet a decoder that has compiled nothing yet: each compiles the type for itself (they
+		// start together) and decodes the history
 		shared := types.VerifNewDecoder()
-		sd, _ := shared.Compile(reflect.PointerTo(typ))
 		var wg sync.WaitGroup
 		var mu sync.Mutex
+		start := make(chan struct{})
 		for gI := 0; gI < 8; gI++ {
 			wg.Add(1)
 			go func(gI int) {
 				defer wg.Done()
+				<-start
+				sd, err := shared.Compile(reflect.PointerTo(typ))
+				if err != nil {
+					mu.Lock()
+					if fail == "" {
+						fail = fmt.Sprintf("concurrent Compile of %s fails: %v (it succeeds sequentially)", typ, err)
+					}
+					mu.Unlock()
+					return
+				}
 				for k := 0; k < len(seq); k++ {
 					vi := seq[(k+gI)%len(seq)]
 					o, _ := decodeOnce(sd, typ, vals[vi], &intern17{ids: map[string]int{}}, &intern17{ids: map[string]int{}})
@@ -246,6 +267,7 @@ func real17(r *rand.Rand, hist map[string]int) (any, string, bool) {
 				}
 			}(gI)
 		}
+		close(start)
 		wg.Wait()
 	}
 	_, _, _ = table, kindG, h
